@@ -37,7 +37,7 @@ class Meta:
                 for d in ("fwd", "bwd"):
                     out.append({"id": "relocate/%s/%s/%s" % (k, side, d), "k": "relocate", "stmt": k, "side": side, "dir": d})
         for p in PROGRAMS:
-            out.append({"id": "rename/%s" % p, "k": "rename", "p": p, "bounded": "corpus program %s, 6 renamings" % p})
+            out.append({"id": "rename/%s" % p, "k": "rename", "p": p, "bounded": "corpus program %s, 15 renamings" % p})
             out.append({"id": "layout/%s" % p, "k": "layout", "p": p, "bounded": "corpus program %s, whitespace/comment/case variants" % p})
             out.append({"id": "suffix/%s" % p, "k": "suffix", "p": p, "bounded": "corpus program %s, 4 suffixes" % p})
             out.append({"id": "relocate-corpus/%s" % p, "k": "reloc_corpus", "p": p, "bounded": "corpus program %s, 4 origin shifts" % p})
@@ -122,6 +122,10 @@ class Meta:
         base = self._view(assemble(env, lines))
         schemes = [lambda i, n: "L%d" % i, lambda i, n: "XRAY%d" % i, lambda i, n: "B%dA" % i, lambda i, n: "PCRX%d" % i,
                    lambda i, n: "S@%dU" % i, lambda i, n: "DD%dY" % i, lambda i, n: "Q" * (i + 1)]
+        # names built from register letters only (none of them a register name), rotated so that every label gets each of them
+        reg_names = ["AB", "BD", "ABD", "XY", "US", "XS", "AD", "YU"]
+        for k in range(len(reg_names)):
+            schemes.append(lambda i, n, k=k: reg_names[(i + k) % len(reg_names)] if len(labels) <= len(reg_names) else "%s%d" % (reg_names[(i + k) % len(reg_names)], i))
         for si, sch in enumerate(schemes):
             m = {n: sch(i, n) for i, n in enumerate(labels)}
             new = []
